@@ -16,11 +16,19 @@
     the unlimited search wrote, in the same order (so the bytes on stdout are a prefix of the
     unlimited output and the rows a sub-multiset of the unlimited rows);
   * `streamed_limit_stops` — once N rows are out nothing more is examined (no further `check_file`).
-  Breadth-first streamed LIMIT, several roots and the footer are decided by the correspondence and by the
-  oracle "sub-multiset of the unlimited run with min(N, M) rows".
+  * `bfs_streamed_any_plan`, `bfs_streamed_limit` — the same two statements for the breadth-first
+    walker (the default mode): `visit_dir(root)` plus the queue loop under any plan is `check_file`
+    folded over the level order (`levelOrder`, defined without fuel; the model's fuel is proved
+    sufficient) stopping at the limit; the limited search reports the first min(N, M) rows of the
+    unlimited breadth-first search.  After the limit the queue is still drained, but nothing is
+    examined or written (`drain_reached`).
+  Several roots and the footer are decided by the correspondence and by the oracle "sub-multiset of the
+  unlimited run with min(N, M) rows".
 -/
 import Fsel.Props.C05
+import Fsel.Props.C01
 import Fsel.Lemmas.WalkLim
+import Fsel.Lemmas.WalkLimB
 
 namespace Fsel.C06
 open Fsel TopNL CriteriaL
@@ -127,6 +135,62 @@ theorem dfs_streamed_limit_bytes (p : Plan) (rp : RootParams) (hb : p.q.isBuffer
     ∃ sL rest, visitDirD p rp path canon true kids st = .ok sL ∧ sU.res.out = sL.res.out ++ rest := by
   obtain ⟨sL, cs, h1, h2, _, _⟩ := dfs_streamed_limit p rp hb hn path canon kids st sU hroot hbase hg hnd hfresh h0 hU
   exact ⟨sL, cs.reverse.flatten, h1, by simp [ResSt.out, h2]⟩
+
+/-! ### … and in the breadth-first walker -/
+
+open WalkB WalkLimB C01 in
+/-- `visit_dir(root)` and the queue loop under any plan: `check_file` over the level order, stopping at the limit -/
+theorem bfs_streamed_any_plan (p : Plan) (rp : RootParams) (path canon : Str) (kids : List Node) (st : WSt)
+    (hq : st.walk.queue = [])
+    (hg : goodL kids) (hnd : (inodesL kids).Nodup) (hfresh : ∀ i ∈ inodesL kids, i ∉ st.walk.visited) :
+    match foldLim p st.res (checksL p rp (levelOrder rp [rootItem path canon kids])) with
+    | .error a => bfsRoot p rp path canon kids st = .error a
+    | .ok rs' => ∃ w', bfsRoot p rp path canon kids st = .ok { res := rs', walk := w' } := by
+  rw [bfsRoot_eq_drain p rp path canon kids st hq]
+  have hsz : qSize [rootItem path canon kids] ≤ Node.countDirsList kids + 1 + 1 := by
+    rw [qSize_cons, qSize_nil]; simp only [rootItem]; omega
+  obtain ⟨he, _⟩ := bfsEvents_enough rp _ _ hsz
+  have hqi : qInos [rootItem path canon kids] = inodesL kids := by simp [qInos, rootItem]
+  have h := drain_lim p rp (Node.countDirsList kids + 1 + 1)
+    { st with walk := { st.walk with queue := [rootItem path canon kids] } }
+    (by intro it hit; simp only [List.mem_singleton] at hit; subst hit; exact hg)
+    (by simpa [hqi] using hnd)
+    (by simpa [hqi] using hfresh)
+  simp only [he] at h
+  exact h
+
+open WalkB WalkLimB C01 in
+/-- **LIMIT N without ORDER BY in breadth-first mode**: the first min(N, M) rows of the unlimited
+    breadth-first search, in the same order -/
+theorem bfs_streamed_limit (p : Plan) (rp : RootParams) (hb : p.q.isBuffered = false) (hn : 0 < p.q.limit)
+    (path canon : Str) (kids : List Node) (st sU : WSt) (hq : st.walk.queue = [])
+    (hg : goodL kids) (hnd : (inodesL kids).Nodup) (hfresh : ∀ i ∈ inodesL kids, i ∉ st.walk.visited)
+    (h0 : st.res.found ≤ p.q.limit)
+    (hU : bfsRoot (unlimited p) rp path canon kids st = .ok sU) :
+    ∃ sL cs, bfsRoot p rp path canon kids st = .ok sL ∧
+      sU.res.outRev = cs ++ sL.res.outRev ∧
+      sU.res.found = sL.res.found + cs.length ∧
+      sL.res.found = min p.q.limit sU.res.found := by
+  have hu := bfs_streamed_any_plan (unlimited p) rp path canon kids st hq hg hnd hfresh
+  have hlm := bfs_streamed_any_plan p rp path canon kids st hq hg hnd hfresh
+  rw [checksL_unlimited] at hu
+  cases hf : foldLim (unlimited p) st.res (checksL p rp (levelOrder rp [rootItem path canon kids])) with
+  | error a => rw [hf] at hu; rw [hu] at hU; contradiction
+  | ok rsU =>
+    rw [hf] at hu
+    obtain ⟨wU, hwU⟩ := hu
+    rw [hwU] at hU
+    injection hU with hU
+    subst hU
+    obtain ⟨rsL, cs, h1, h2, h3, h4⟩ := lim_is_prefix p hb hn _ st.res rsU h0 hf
+    rw [h1] at hlm
+    obtain ⟨wL, hwL⟩ := hlm
+    exact ⟨{ res := rsL, walk := wL }, cs, hwL, h2, h3, h4⟩
+
+/-- non-vacuity: a plan with a streamed limit (`select name from . limit 2`) -/
+example : ∃ q : Query, q.isBuffered = false ∧ 0 < q.limit :=
+  ⟨{ fields := [.field false .Name], roots := [], expr := none, grouping := [], ordering := [], orderingAsc := [],
+     limit := 2, format := .Tabs }, by decide, by decide⟩
 
 /-- once the limit is reached nothing more is examined -/
 theorem streamed_limit_stops (p : Plan) (rs : ResSt) (h : limitReached p rs = true) (es : List Entry) :
